@@ -49,9 +49,15 @@ type bsCase struct {
 	TxAt   []int     `json:"tx_at"` // heights that carry transactions
 	Peers  []bsPeerJ `json:"peers"` // peer 0 is honest and complete
 	HonestLateMS int `json:"honest_late_ms"` // peer 0 connects this much after the others
+	// the node waits this long between checking a block's commit and taking the block out of the pool
+	// (failpoint "fastsync:verified"), and peers drop their connection at the given moments: whatever
+	// the pool is handed for that height meanwhile must not replace the block that was checked
+	PauseMS   int            `json:"pause_ms,omitempty"`
+	LeaveOnVerified []int `json:"leave_on_verified,omitempty"` // heights: the peer that served the block leaves the moment the node has checked it
+	LeaveAtMS map[string][]int `json:"leave_at_ms,omitempty"` // peer index -> ms after it first connected; it dials again 250 ms later
 }
 
-var bsTamperKinds = []string{"txs-altered", "txs-altered-datahash-fixed", "header-time", "header-apphash", "header-valhash",
+var bsTamperKinds = []string{"txs-altered", "txs-altered-datahash-fixed", "valid-tx-added-datahash-fixed", "header-time", "header-apphash", "header-valhash",
 	"extra-altered", "next-commit-undersigned", "next-commit-wrong-keys", "next-commit-other-block", "next-commit-one-signer-everywhere",
 	"swapped-height", "nil-data", "nil-header", "nil-lastcommit", "next-commit-nil", "sent-twice", "sent-twice", "unrequested-too"}
 
@@ -87,6 +93,38 @@ func genBSCase(r *Rng, i int) *bsCase {
 		h := 1 + r.Intn(c.Len-1)
 		c.Peers[p].Tamper[fmt.Sprint(h)] = "forged-colluding"
 		c.Peers[p].Tamper[fmt.Sprint(h+1)] = "next-commit-colluding"
+	}
+	// a peer serves a forged block at h and, at h+1, the genuine block whose last commit is the genuine
+	// one except for its own BlockID field, rewritten to name the forgery (no hash or signature covers
+	// that field): the precommits inside still name the genuine block and justify nothing else
+	if len(c.Peers) > 1 && r.Chance(1, 3) {
+		p := 1 + r.Intn(len(c.Peers)-1)
+		h := 1 + r.Intn(c.Len-1)
+		c.Peers[p].Tamper[fmt.Sprint(h)] = "forged-relabel"
+		c.Peers[p].Tamper[fmt.Sprint(h+1)] = "next-commit-relabelled"
+	}
+	if r.Chance(1, 3) {
+		c.PauseMS = 150 + r.Intn(250)
+		c.LeaveAtMS = map[string][]int{}
+		for h := 1; h < c.Len; h++ {
+			if r.Bool() {
+				c.LeaveOnVerified = append(c.LeaveOnVerified, h)
+			}
+		}
+		for p := range c.Peers {
+			// syncing starts about a second after the node is up
+			for k := r.Intn(4); k > 0; k-- {
+				c.LeaveAtMS[fmt.Sprint(p)] = append(c.LeaveAtMS[fmt.Sprint(p)], 900+r.Intn(c.Len*c.PauseMS))
+			}
+			if p > 0 {
+				// blocks that differ from the source chain's only in what nothing in them vouches for
+				for h := 1; h <= c.Len; h++ {
+					if r.Bool() {
+						c.Peers[p].Tamper[fmt.Sprint(h)] = "valid-tx-added-datahash-fixed"
+					}
+				}
+			}
+		}
 	}
 	if r.Chance(2, 3) {
 		// the honest peer joins late: the others then claim the whole chain, or the node would rightly
@@ -249,6 +287,15 @@ func (ch *bsChain) served(h int64, kind string, r *Rng) (*types.Block, bool) {
 		b.Data = &types.Data{Txs: b.Data.Txs, ExTxs: b.Data.ExTxs}
 		b.Header.DataHash = b.Data.Hash()
 		genuine = false
+	case "valid-tx-added-datahash-fixed":
+		// a transaction that is valid and changes the application state: a contract creation by a sender
+		// the source chain never uses
+		ftx := etypes.NewContractCreation(0, big.NewInt(0), 1000000, big.NewInt(0), common.Hex2Bytes("600a600c600039600a6000f3"+"60005460010160005500"))
+		b.Data.Txs = append(types.Txs{types.Tx(signAppTx(ftx, 3, false))}, b.Data.Txs...)
+		b.Header.NumTxs = int64(len(b.Data.Txs))
+		b.Data = &types.Data{Txs: b.Data.Txs, ExTxs: b.Data.ExTxs}
+		b.Header.DataHash = b.Data.Hash()
+		genuine = false
 	case "header-time":
 		b.Header.Time = b.Header.Time.Add(time.Second)
 		genuine = false
@@ -326,6 +373,17 @@ func (ch *bsChain) served(h int64, kind string, r *Rng) (*types.Block, bool) {
 	case "forged-colluding":
 		b = ch.forged(h)
 		genuine = false
+	case "forged-relabel":
+		b = ch.forged(h)
+		genuine = false
+	case "next-commit-relabelled":
+		if h > 1 && b.LastCommit != nil {
+			f := ch.forged(h - 1)
+			cm := *b.LastCommit
+			cm.BlockID = types.BlockID{Hash: f.Hash(), PartsHeader: f.MakePartSet(bsPartSize).Header()}
+			b.LastCommit = &cm
+			genuine = false
+		}
 	case "next-commit-colluding":
 		if h > 1 && ch.slot0Minority() {
 			f := ch.forged(h - 1)
@@ -367,12 +425,17 @@ type bsReactor struct {
 	mtx     sync.Mutex
 	asked   map[int64]int
 	removed bool
+	redial  func() // an honest peer comes back when the node drops it (a persistent peer would)
+	redials int
 }
 
 func (r *bsReactor) GetChannels() []*p2p.ChannelDescriptor {
 	return []*p2p.ChannelDescriptor{{ID: blockchain.BlockchainChannel, Priority: 5, SendQueueCapacity: 100}}
 }
 func (r *bsReactor) AddPeer(peer *p2p.Peer) {
+	r.mtx.Lock()
+	r.removed = false
+	r.mtx.Unlock()
 	peer.Send(blockchain.BlockchainChannel, blockchain.VerifStatusResponse(r.height))
 	// every peer, honest or not, keeps announcing its height (a real peer does so when asked, every
 	// ten seconds): a peer dropped from the pool is back at once
@@ -394,7 +457,17 @@ func (r *bsReactor) AddPeer(peer *p2p.Peer) {
 func (r *bsReactor) RemovePeer(peer *p2p.Peer, reason interface{}) {
 	r.mtx.Lock()
 	r.removed = true
+	again := r.redial != nil && r.redials < 40
+	if again {
+		r.redials++
+	}
 	r.mtx.Unlock()
+	if again {
+		go func() {
+			time.Sleep(250 * time.Millisecond)
+			r.redial()
+		}()
+	}
 }
 func (r *bsReactor) Receive(chID byte, src *p2p.Peer, msg []byte) {
 	kind, h, _ := blockchain.VerifDecode(msg)
@@ -480,7 +553,7 @@ func runBSCase(idx int, c *bsCase) (string, []MonitorHit, map[string]int, bool) 
 	dist[fmt.Sprintf("len=%d", c.Len)]++
 	dir, _ := ioutil.TempDir("", "annverif-bs")
 	defer func() {
-		if len(hits) > 0 && os.Getenv("VERIF_KEEP") != "" {
+		if (len(hits) > 0 && os.Getenv("VERIF_KEEP") != "") || os.Getenv("VERIF_KEEP") == "all" {
 			fmt.Fprintf(os.Stderr, "KEPT %s for case %d\n", dir, idx)
 			return
 		}
@@ -505,6 +578,10 @@ func runBSCase(idx int, c *bsCase) (string, []MonitorHit, map[string]int, bool) 
 	cmd := exec.Command(os.Args[0], "node", "--dir", dir, "--script", sf, "--genesis", gfile, "--fastsync", "--peer-timeout", "2")
 	var stderr bytes.Buffer
 	cmd.Stderr = &stderr
+	if c.PauseMS > 0 {
+		cmd.Env = append(os.Environ(), fmt.Sprintf("VERIF_FASTSYNC_PAUSE_MS=%d", c.PauseMS))
+		dist["pause-between-check-and-pop"]++
+	}
 	out, _ := cmd.StdoutPipe()
 	if err := cmd.Start(); err != nil {
 		hit("harness-error", err.Error())
@@ -513,6 +590,11 @@ func runBSCase(idx int, c *bsCase) (string, []MonitorHit, map[string]int, bool) 
 	killer := time.AfterFunc(60*time.Second, func() { cmd.Process.Kill() })
 	defer killer.Stop()
 	listen := make(chan string, 1)
+	var smtx sync.Mutex
+	lastServer := map[int64]int{}  // height -> peer that handed out a block for it last
+	peerSw := map[int]*p2p.Switch{} // peer index -> its switch
+	leftAt := map[int64]bool{}
+	peerRx := map[int]*bsReactor{}
 	var rep *nodeReport
 	seenBlocks := map[int64]string{}
 	var mtx sync.Mutex
@@ -535,6 +617,58 @@ func runBSCase(idx int, c *bsCase) (string, []MonitorHit, map[string]int, bool) 
 				mtx.Lock()
 				seenBlocks[h] = hash
 				mtx.Unlock()
+			} else if strings.HasPrefix(line, "NODE-VERIFIED ") {
+				var h int64
+				fmt.Sscanf(line, "NODE-VERIFIED %d", &h)
+				for _, lh := range c.LeaveOnVerified {
+					if int64(lh) != h {
+						continue
+					}
+					smtx.Lock()
+					pi, ok := lastServer[h]
+					sw := peerSw[pi]
+					if leftAt[h] {
+						ok = false // once per height
+					} else {
+						dist["left-between-check-and-pop"]++
+					}
+					leftAt[h] = true
+					smtx.Unlock()
+					if ok && sw != nil {
+						for _, p := range sw.Peers().List() {
+							p := p
+							catchPanic(func() { sw.StopPeerForError(p, "the scripted peer leaves") })
+						}
+						// and the peers that tamper with this height keep pushing their version of it, asked or
+						// not, for as long as the node waits (its requests do not go out meanwhile)
+						go func() {
+							for t := 0; t < c.PauseMS+100; t += 20 {
+								smtx.Lock()
+								var pushers []int
+								for idx := range peerSw {
+									if idx != pi && c.Peers[idx].Tamper[fmt.Sprint(h)] != "" {
+										pushers = append(pushers, idx)
+									}
+								}
+								smtx.Unlock()
+								for _, idx := range pushers {
+									smtx.Lock()
+									psw, prx := peerSw[idx], peerRx[idx]
+									smtx.Unlock()
+									b, _ := prx.serve(h)
+									if b == nil {
+										continue
+									}
+									for _, p := range psw.Peers().List() {
+										p := p
+										catchPanic(func() { p.TrySend(blockchain.BlockchainChannel, blockchain.VerifBlockResponse(b)) })
+									}
+								}
+								time.Sleep(20 * time.Millisecond)
+							}
+						}()
+					}
+				}
 			} else if strings.HasPrefix(line, "NODE-REPORT ") {
 				var x nodeReport
 				if json.Unmarshal([]byte(line[len("NODE-REPORT "):]), &x) == nil {
@@ -557,10 +691,10 @@ func runBSCase(idx int, c *bsCase) (string, []MonitorHit, map[string]int, bool) 
 	var sws []*p2p.Switch
 	var rxs []*bsReactor
 	servedForged := map[string]bool{} // "h:hash" of non-genuine blocks handed out
-	var smtx sync.Mutex
 	var dialWG sync.WaitGroup
 	for i := len(c.Peers) - 1; i >= 0; i-- {
 		pj := c.Peers[i]
+		pidx := i
 		pr := r.Fork()
 		rx := &bsReactor{height: pj.Height, asked: map[int64]int{}}
 		rx.kindOf = func(h int64) string { return pj.Tamper[fmt.Sprint(h)] }
@@ -574,6 +708,7 @@ func runBSCase(idx int, c *bsCase) (string, []MonitorHit, map[string]int, bool) 
 				return nil, 0
 			}
 			smtx.Lock()
+			lastServer[h] = pidx
 			if kind != "" {
 				dist["served="+kind]++
 			}
@@ -586,11 +721,26 @@ func runBSCase(idx int, c *bsCase) (string, []MonitorHit, map[string]int, bool) 
 		sw := newScriptPeer(i, c.Seed, genesisJSON, rx)
 		sws = append(sws, sw)
 		rxs = append(rxs, rx)
+		smtx.Lock()
+		peerSw[i] = sw
+		peerRx[i] = rx
+		smtx.Unlock()
 		late := 0
 		if i == 0 {
 			late = c.HonestLateMS
 		}
+		if i == 0 || c.PauseMS > 0 {
+			// the honest peer is a persistent one (so is a peer that leaves by itself): dropped by the node (its block stood next to a
+			// forged one, both peers go), it dials again
+			hsw := sw
+			rx.redial = func() {
+				if na, err := p2p.NewNetAddressString(addr); err == nil {
+					catchPanic(func() { hsw.DialPeerWithAddress(na) })
+				}
+			}
+		}
 		dialWG.Add(1)
+		leaves := c.LeaveAtMS[fmt.Sprint(i)]
 		go func(sw *p2p.Switch, late int) {
 			defer dialWG.Done()
 			time.Sleep(time.Duration(late) * time.Millisecond)
@@ -599,6 +749,16 @@ func runBSCase(idx int, c *bsCase) (string, []MonitorHit, map[string]int, bool) 
 				catchPanic(func() { _, err = sw.DialPeerWithAddress(na) })
 			}
 			_ = err
+			for _, leave := range leaves {
+				leave := leave
+				go func() {
+					time.Sleep(time.Duration(leave) * time.Millisecond)
+					for _, p := range sw.Peers().List() {
+						p := p
+						catchPanic(func() { sw.StopPeerForError(p, "the scripted peer leaves") })
+					}
+				}()
+			}
 		}(sw, late)
 	}
 	dialWG.Wait()
